@@ -361,6 +361,7 @@ def check(ctx):
 
 
 VARIANTS = [
+    M('R5', 'cflib/crazyflie/syncCrazyflie.py', "        if self._connect_event:\n            # The link was lost before the connection was fully set up\n            self._error_message = 'Connection to %s lost during connection setup' % link_uri\n            self._connect_event.set()\n", "", 'link loss during set-up never wakes open_link'),
     M('R1', SW, '        for thread in threads:\n            thread.join()', '        for thread in threads[:1]:\n            thread.join()', 'join only first'),
     M('R1', SW, '        for thread in threads:\n            thread.join()', '        for thread in threads:\n            thread.join(1.0)', 'timed join'),
     M('R1', SW, '            threads.append(thread)\n            thread.start()', '            thread.start()\n            if not args_dict:\n                threads.append(thread)', 'conditional record'),
